@@ -46,6 +46,24 @@ def clone_copy_table(prog: Program) -> Dict[str, set]:
     return out
 
 
+class _Total:
+    """A hook that handles every call it receives for node receivers (safe for virtual dispatch without
+    splitting the receiver's kind set)."""
+    total = True
+
+    def __init__(self, fn):
+        self.fn = fn
+
+    def __call__(self, *a, **k):
+        return self.fn(*a, **k)
+
+    def __eq__(self, o):
+        return isinstance(o, _Total) and o.fn == self.fn
+
+    def __hash__(self):
+        return hash(self.fn)
+
+
 class Summaries:
     def __init__(self, prog: Program):
         self.prog = prog
@@ -65,7 +83,7 @@ class Summaries:
         h["MathExpression.all_changed"] = self.h_all_changed
         h["mathy_core/util.py:factor"] = self.h_factor
         h["listcomp"] = self.h_listcomp
-        return h
+        return {k: _Total(v) if k != "listcomp" else v for k, v in h.items()}
 
     # ------------------------------------------------------------------ clone
     def _do_clone(self, it: Interp, root_cid: int) -> Dict[int, int]:
